@@ -1,6 +1,6 @@
-(** * C08, part B — theorems about [level_swap] (Mgr/LevelSwap.v), BDD kind
+(** * C08, part B — theorems about [level_swap] (Mgr/LevelSwap.v), BDD and MTBDD kinds ([bink])
 
-    For a well-formed BDD table [s] and two adjacent levels [i], [i+1]:
+    For a well-formed BDD or MTBDD table [s] and two adjacent levels [i], [i+1]:
     - [level_swap_wf]: the result is well-formed (ordered, reduced, per-level
       unique, variable/level maps inverse permutations), with
       [level_swap_maps]: the entries of the two levels exchanged;
@@ -37,14 +37,14 @@ Proof.
   destruct (a (nth l (s_l2v s) 0)); destruct (s_kind s); simpl; lia.
 Qed.
 
-Lemma sem_edge_bdd : forall s e c, s_kind s = KBdd -> sem_edge s e c = semn s (eref e) c.
-Proof. intros s e c Hk. unfold sem_edge, semn. rewrite Hk. reflexivity. Qed.
+Lemma sem_edge_bdd : forall s e c, bink (s_kind s) -> sem_edge s e c = semn s (eref e) c.
+Proof. intros s e c Hk. unfold semn. apply bink_sem_edge. exact Hk. Qed.
 
 Section Sweep.
 Variable s : snap.
 Variable i : nat.
 Hypothesis H : WF s.
-Hypothesis Hk : s_kind s = KBdd.
+Hypothesis Hk : bink (s_kind s).
 Hypothesis Hi : S i < nlevels s.
 
 Let s1 := level_swap_core s i.
@@ -161,7 +161,7 @@ Section Theorems.
 Variable s : snap.
 Variable i : nat.
 Hypothesis H : WF s.
-Hypothesis Hk : s_kind s = KBdd.
+Hypothesis Hk : bink (s_kind s).
 Hypothesis Hi : S i < nlevels s.
 
 (** (a) well-formedness *)
